@@ -126,10 +126,37 @@ CHECKS = {
 NOT_APPLICABLE = {}
 
 
+# what the driver / oracle of a check gained after its first version (the level text above describes the first version)
+EXTENDED = {
+    'C01': 'two-symbol fast configurations in the quick tier.',
+    'C02': '13 programs incl. fill handlers that submit market orders, never re-declared exits, near-market exits and a second route that reacts to the first route\'s fills; doji and flat shapes; micro/huge price scales; clauses for later minutes of a chunk, market-overtaken and fill-before-submission by the session clock.',
+    'C03': 'decimal and full-precision quantity configurations (exact-binary reference), every scalar attribute of exchange and positions in the canonical key.',
+    'C04': 'search also started from non-initial states (holding with a ladder of resting exits), a sell-the-free-remainder operation, non-reduce-only sells, verdicts exactly at the threshold.',
+    'C05': 'end-of-step active-list rule and two-route sessions; every order snapshotted when it becomes final and compared at session end.',
+    'C06': 'isolated high-leverage, two-symbol and micro/huge-scale configurations; programs that scale back in or liquidate from a fill handler; doji words.',
+    'C07': 'gapping opens in the session words; liquidation, near-market and second-symbol-only session modes.',
+    'C08': 'MARKET reactions (liquidate, scale back in) as points on the path; clause path-missed at the end of every minute.',
+    'C09': 'non-perturbing oracle (entry price followed through the fills, prices looked up in calibration readings); partial exits inside the probe minute; increase and partial exit inside one minute; micro/huge scales.',
+    'C10': 'duplicate, uneven and withdrawn (empty) declarations, nudged modifications, re-trade scenarios, liquidate() after an equal filled exit; micro/huge scales.',
+    'C11': 'strategies log a non-sequential indicator and read/write shared_vars; configured warm-up number; arguments of a call re-compared after the following call.',
+    'C12': 'fill handlers that submit market orders, candle-shape and 1m-candle-colour entries, kept entries, trailing stops; non-dividing timeframe pairs, trailing remainder minutes, isolated 50x, micro/huge scales.',
+    'C13': 'no-trade, ramp and zero-volume-start stems, volume source, pairs of full-length series that share their first 1..19 candles, reversed-window and exotic smoothing variants.',
+    'C14': 'large (40+) and huge (90+) windows, recursive matype variants, inputs exactly as long as the largest window, scalar sequential results reported.',
+    'C15': 'gappy and huge-price/small-move series, long inputs (5000; 4097/5000/20000 thorough), stochastic %D / slow %K lines incl. EMA smoothing, var, selector on 1-D input, two-pass deviation reference.',
+    'C16': 'short programs, route timeframes 15m / 4h / 1D / 3D in both simulators.',
+    'C17': 'violation signatures carry whether the float cost exceeds the capital (the recorded finding) or not.',
+    'C18': 'negative delete indices, empty batches, clamped slice-assignment bounds, drop-limit clause, every attribute in the canonical key.',
+    'C19': 'degenerate ranges next to ordinary ones, zero genes, every letter through dna() of a real backtest, range and end points without tolerance.',
+    'C20': 'pages running past the interval and listed newest-first / with a late row; whole-session store invariants (warm-up, shared pair, both simulators).',
+}
+
+
 def build():
     checks = []
     for pid in sorted(CHECKS):
         eng, tech, text, note, ref = CHECKS[pid]
+        if pid in EXTENDED:
+            note = note + ' Extended after the seeded-change rounds and audits (DESIGN.md 5, 5.1): ' + EXTENDED[pid]
         checks.append({
             'property_id': pid,
             'quick_cmd': './check %s --tier quick' % pid,
